@@ -21,7 +21,7 @@ Import ListNotations.
 (** * Events *)
 Inductive cv := CJ | CF.                        (* c0 = cv_jobs_, c1 = cv_finished_ *)
 Inductive av := ABusy | AIdle | ADone | ATerm.  (* a0 = busy_, a1 = idle_, a2 = done_, a3 = terminate_ *)
-Inductive utag := UJS | UJE | UENQ | ULE | ULT | UTERM.
+Inductive utag := UJS | UJE | UENQ | ULE | ULT | UTERM | UWD.
 
 Inductive ev :=
 | ELock | EUnlock
@@ -34,7 +34,7 @@ Inductive ev :=
 
 (** * Programs (the parameters of a scenario) *)
 Inductive cop := CEnq (j : nat) | CLoopEmpty | CLoopTerm | CTerminate | CDone.   (* client operations *)
-Inductive jop := JEnq (j : nat) | JTerm.                                        (* what a job body may do *)
+Inductive jop := JEnq (j : nat) | JTerm | JWait (j : nat).   (* what a job body may do; JWait j = block until the body of job j has ended *)
 
 Record config := {
   nworkers : nat;
@@ -64,7 +64,8 @@ Inductive api :=
 | QLT1              (* predicate: load terminate_ *)
 | QLT1b             (* ... && busy_ == 0 *)
 | QLT2 | QLT3 | QLT4
-| QDone.            (* done(): load done_ *)
+| QDone             (* done(): load done_ *)
+| QWait (j : nat).  (* (job body only) rendezvous: blocked until the body of job id j has ended; then user event WD j *)
 
 (** worker(), outside the job body. *)
 Inductive wpc :=
@@ -119,34 +120,35 @@ Record shared := {
   woken : list nat;             (* notified, have to re-acquire the mutex *)
   npushed : nat;                (* history: number of enqueues so far *)
   started : list nat;           (* history: tickets popped by a worker *)
-  ended : list nat              (* history: tickets whose job body has ended *)
+  ended : list nat;             (* history: tickets whose job body has ended *)
+  endedj : list nat             (* history: job ids whose body has ended (what a rendezvous waits for) *)
 }.
 
 Definition sh0 : shared :=
   {| queue := []; busy := 0; idle := 0; done := 0; term := false; owner := None;
-     wsJ := []; wsF := []; woken := []; npushed := 0; started := []; ended := [] |}.
+     wsJ := []; wsF := []; woken := []; npushed := 0; started := []; ended := []; endedj := [] |}.
 
 Definition set_owner o s := {| queue := queue s; busy := busy s; idle := idle s; done := done s; term := term s; owner := o;
-  wsJ := wsJ s; wsF := wsF s; woken := woken s; npushed := npushed s; started := started s; ended := ended s |}.
+  wsJ := wsJ s; wsF := wsF s; woken := woken s; npushed := npushed s; started := started s; ended := ended s; endedj := endedj s |}.
 Definition set_busy n s := {| queue := queue s; busy := n; idle := idle s; done := done s; term := term s; owner := owner s;
-  wsJ := wsJ s; wsF := wsF s; woken := woken s; npushed := npushed s; started := started s; ended := ended s |}.
+  wsJ := wsJ s; wsF := wsF s; woken := woken s; npushed := npushed s; started := started s; ended := ended s; endedj := endedj s |}.
 Definition set_idle n s := {| queue := queue s; busy := busy s; idle := n; done := done s; term := term s; owner := owner s;
-  wsJ := wsJ s; wsF := wsF s; woken := woken s; npushed := npushed s; started := started s; ended := ended s |}.
+  wsJ := wsJ s; wsF := wsF s; woken := woken s; npushed := npushed s; started := started s; ended := ended s; endedj := endedj s |}.
 Definition set_done n s := {| queue := queue s; busy := busy s; idle := idle s; done := n; term := term s; owner := owner s;
-  wsJ := wsJ s; wsF := wsF s; woken := woken s; npushed := npushed s; started := started s; ended := ended s |}.
+  wsJ := wsJ s; wsF := wsF s; woken := woken s; npushed := npushed s; started := started s; ended := ended s; endedj := endedj s |}.
 Definition set_term b s := {| queue := queue s; busy := busy s; idle := idle s; done := done s; term := b; owner := owner s;
-  wsJ := wsJ s; wsF := wsF s; woken := woken s; npushed := npushed s; started := started s; ended := ended s |}.
+  wsJ := wsJ s; wsF := wsF s; woken := woken s; npushed := npushed s; started := started s; ended := ended s; endedj := endedj s |}.
 Definition set_ws c l s := {| queue := queue s; busy := busy s; idle := idle s; done := done s; term := term s; owner := owner s;
   wsJ := match c with CJ => l | CF => wsJ s end; wsF := match c with CJ => wsF s | CF => l end;
-  woken := woken s; npushed := npushed s; started := started s; ended := ended s |}.
+  woken := woken s; npushed := npushed s; started := started s; ended := ended s; endedj := endedj s |}.
 Definition set_woken l s := {| queue := queue s; busy := busy s; idle := idle s; done := done s; term := term s; owner := owner s;
-  wsJ := wsJ s; wsF := wsF s; woken := l; npushed := npushed s; started := started s; ended := ended s |}.
+  wsJ := wsJ s; wsF := wsF s; woken := l; npushed := npushed s; started := started s; ended := ended s; endedj := endedj s |}.
 Definition push j s := {| queue := queue s ++ [(npushed s, j)]; busy := busy s; idle := idle s; done := done s; term := term s;
-  owner := owner s; wsJ := wsJ s; wsF := wsF s; woken := woken s; npushed := S (npushed s); started := started s; ended := ended s |}.
+  owner := owner s; wsJ := wsJ s; wsF := wsF s; woken := woken s; npushed := S (npushed s); started := started s; ended := ended s; endedj := endedj s |}.
 Definition pop_to q tk s := {| queue := q; busy := busy s; idle := idle s; done := done s; term := term s;
-  owner := owner s; wsJ := wsJ s; wsF := wsF s; woken := woken s; npushed := npushed s; started := tk :: started s; ended := ended s |}.
-Definition add_ended tk s := {| queue := queue s; busy := busy s; idle := idle s; done := done s; term := term s;
-  owner := owner s; wsJ := wsJ s; wsF := wsF s; woken := woken s; npushed := npushed s; started := started s; ended := tk :: ended s |}.
+  owner := owner s; wsJ := wsJ s; wsF := wsF s; woken := woken s; npushed := npushed s; started := tk :: started s; ended := ended s; endedj := endedj s |}.
+Definition add_ended tk j s := {| queue := queue s; busy := busy s; idle := idle s; done := done s; term := term s;
+  owner := owner s; wsJ := wsJ s; wsF := wsF s; woken := woken s; npushed := npushed s; started := started s; ended := tk :: ended s; endedj := j :: endedj s |}.
 
 Definition ws c s := match c with CJ => wsJ s | CF => wsF s end.
 Definition mem (t : nat) (l : list nat) : bool := existsb (Nat.eqb t) l.
@@ -207,11 +209,12 @@ Definition api_step (fx sp : bool) (t : nat) (s : shared) (a : api) (e : ev) : o
   | QLT3 => match e with EWE CF spur => match do_we sp CF spur t s with Some s' => Some (s', Some QLT1) | None => None end | _ => None end
   | QLT4 => match e with EUnlock => match do_unlock t s with Some s' => Some (s', None) | None => None end | _ => None end
   | QDone => match e with EAL ADone v => if Nat.eqb v (done s) then Some (s, None) else None | _ => None end
+  | QWait j => match e with EUser UWD x => if Nat.eqb x j && mem j (endedj s) then Some (s, None) else None | _ => None end
   end.
 
 Definition api_of_cop (o : cop) : api :=
   match o with CEnq j => QEnqC j | CLoopEmpty => QLEC | CLoopTerm => QLTC | CTerminate => QTermC | CDone => QDone end.
-Definition api_of_jop (o : jop) : api := match o with JEnq j => QEnqC j | JTerm => QTermC end.
+Definition api_of_jop (o : jop) : api := match o with JEnq j => QEnqC j | JTerm => QTermC | JWait j => QWait j end.
 
 (** * Control flow between API calls *)
 Definition job_next (tk j : nat) (rest : list jop) : tstate :=
@@ -258,7 +261,7 @@ Definition tstep (cfg : config) (fx sp : bool) (fin : nat -> bool) (t : nat) (s 
                        | Some (s', Some a') => Some (s', TWJ tk j a' rest, None)
                        | Some (s', None) => Some (s', job_next tk j rest, None)
                        | None => None end
-  | TWJE tk j => match e with EUser UJE x => if Nat.eqb x j then Some (add_ended tk s, TW WD0, None) else None | _ => None end
+  | TWJE tk j => match e with EUser UJE x => if Nat.eqb x j then Some (add_ended tk j s, TW WD0, None) else None | _ => None end
   | TW WD0 => match e with EAR ADone o n => if Nat.eqb o (done s) && Nat.eqb n (S o) then Some (set_done n s, TW WD1, None) else None | _ => None end
   | TW WD1 => match e with EAR ABusy o n => if Nat.eqb o (busy s) && Nat.leb 1 o && Nat.eqb n (o - 1) then Some (set_busy n s, TW WD2, None) else None | _ => None end
   | TW WD2 => match e with ELock => match do_lock t s with Some s' => Some (s', TW WD3, None) | None => None end | _ => None end
@@ -343,6 +346,7 @@ Definition api_cands (s : shared) (a : api) : list ev :=
   | QLTC => [EUser ULT 0] | QLT0 => [ELock] | QLT1 => [EAL ATerm (b2n (term s))] | QLT1b => [EAL ABusy (busy s)]
   | QLT2 => [EWB CF] | QLT3 => [EWE CF false; EWE CF true] | QLT4 => [EUnlock]
   | QDone => [EAL ADone (done s)]
+  | QWait j => [EUser UWD j]
   end.
 Definition cands (cfg : config) (s : shared) (ts : tstate) : list ev :=
   match ts with
